@@ -71,9 +71,22 @@ def run(tier, seed):
         ma = [parse(l) for l in C.run_lines([drv], la, indexed=False)]
         mb = [parse(l) for l in C.run_lines([drv], lb, indexed=False)]
         jobs = []
-        for A, B, _ in cases:
-            jobs.append(G.pretty(A))
-            jobs.append(G.pretty(B))
+        layout = {}
+        argkinds = {}
+        for k, (A, B, info) in enumerate(cases):
+            for _, _, ta, _ in info:
+                for t in ta:
+                    kind = {"i": "integer type", "dist": "distinct integer type", "struct": "struct type", "enum": "enum type"}.get(t[0], t[0])
+                    argkinds[kind] = argkinds.get(kind, 0) + 1
+            if k % 3 == 0:
+                # the generic functions (and everything else) live in lib.capy, main (and the copies) in p.capy
+                layout["generic defined in another file"] = layout.get("generic defined in another file", 0) + 1
+                jobs.append(G.pretty_files(A, {A["main"]}))
+                jobs.append(G.pretty_files(B, {B["main"]} | set(range(len(A["funs"]), len(B["funs"])))))
+            else:
+                layout["one file"] = layout.get("one file", 0) + 1
+                jobs.append(G.pretty(A))
+                jobs.append(G.pretty(B))
         impl = C.parallel_map(lambda src: G.build_and_run(capy, src), jobs)
         d_model = d_subst = d_a = d_b = 0
         f_model = f_subst = f_a = f_b = None
@@ -102,7 +115,7 @@ def run(tier, seed):
             real_a = (ia["rc"], G.strip_fault_location(ia["stdout"]))
             real_b = (ib["rc"], G.strip_fault_location(ib["stdout"]))
             payload = {"key": "c16:" + C.sha(la[k]), "stream": "generic vs substituted copy",
-                       "source_generic": G.pretty(A), "source_substituted": G.pretty(B),
+                       "source_generic": jobs[2 * k], "source_substituted": jobs[2 * k + 1],
                        "instantiations": [[G.Printer(A).ty(t) for t in ta] + [str(c[2]) for c in ca] for _, _, ta, ca in info],
                        "generic": {"exit": ia["rc"], "stdout": ia["stdout"][-1500:], "build": ia["build_out"][:800]},
                        "substituted": {"exit": ib["rc"], "stdout": ib["stdout"][-1500:], "build": ib["build_out"][:800]},
@@ -175,13 +188,16 @@ def run(tier, seed):
         v.coverage["distinct_nontrivial"] += len(nontriv)
         v.coverage["skipped_trap_or_fuel"] = skipped
         v.coverage["both_programs_rejected"] = both_rejected
-        v.coverage["histograms"] = {"generator_constructs": hist, "instantiations": inst_hist}
+        v.coverage["histograms"] = {"generator_constructs": hist, "instantiations": inst_hist,
+                                    "comptime_type_arguments": argkinds, "file_layout": layout}
         v.coverage["rule"] = ("%d generated program pairs: 0-2 plain helper functions, 1-2 generic functions with 1-3 comptime parameters "
                               "(integer types, integers of fixed or parameter type), nested and recursive generic calls passing parameters "
                               "through, main instantiating the last generic 1-3 ways in 1-4 interleaved calls; B = same AST with calls "
                               "redirected to substituted copies.  compared: real generic vs real copy (oracle), both vs eval_prog "
-                              "(correspondence).  non-trivial = >= 2 print events; distinct by serialised AST.  NOT generated: type "
-                              "parameters instantiated with struct/distinct types, inline header references, varargs, generics in another file"
+                              "(correspondence).  non-trivial = >= 2 print events; distinct by serialised AST.  type arguments: integer types, "
+                              "distinct integer types, and (for a type parameter used opaquely: parameters, locals, arrays, result) struct and "
+                              "enum types; every third pair defines the generic functions in another file (lib.capy, #import).  NOT generated: "
+                              "inline header references, varargs"
                               % n)
         v.add_samples([{"generic": G.pretty(cases[i][0])[len(G.PRELUDE):][:1800],
                         "instantiations": [[G.Printer(cases[i][0]).ty(t) for t in ta] + [str(c[2]) for c in ca] for _, _, ta, ca in cases[i][2]]}
@@ -192,7 +208,9 @@ def run(tier, seed):
                      "the comptime-argument arena range, GenericID mangling) implements that semantics; the instantiation-table model "
                      "(find_or_add) is not tied to the Rust data structures by a harness",
                      "comptime value parameters are integers; comptime parameter names are not shadowed by locals (generator invariant)",
-                     "type parameters range over the integer types up to 64 bits (128-bit instantiations hit C01-1/C01-2)"]
+                     "integer-like type parameters range over the integer types up to 64 bits and distinct types over them (128-bit "
+                     "instantiations hit C01-1/C01-2); a distinct integer type has the semantics of its base type in the model (the program "
+                     "text uses the distinct type and casts)"]
     return fl.finish()
 
 
